@@ -81,7 +81,7 @@ def gen_case(streams, tier, avoid):
                     name = v.choice(sorted(prog["vars"]))
                     kind = prog["vars"][name]["kind"]
                     pre.append({"op": "mutate_and_back", "var": name, "value": v.choice(gen.VAR_VALUES[kind]),
-                                "entry": v.choice(ents)})
+                                "entry": v.choice(ents), "inplace": kind in ("list", "dict") and v.random() < 0.6})
                 else:
                     reach = sorted(gen.reachable(prog, entry))
                     pre.append({"op": "failed_eval", "entry": entry, "at": v.choice(reach), "cls": "ValueError"})
@@ -116,9 +116,12 @@ def _cmds(prog, entry, srcdir, store, root, var):
             from ..pipe.world import _pyvalue
 
             modn = ir.modname(prog, vv["mod"])
-            cmds.append({"cmd": "mutate", "module": modn, "var": pre["var"], "value": _pyvalue(vv["kind"], pre["value"])})
+            ip = bool(pre.get("inplace"))
+            cmds.append({"cmd": "mutate", "module": modn, "var": pre["var"], "value": _pyvalue(vv["kind"], pre["value"]),
+                         "inplace": ip})
             cmds.append({"cmd": "eval", "entry": pname, "style": "eval", "options": {}})
-            cmds.append({"cmd": "mutate", "module": modn, "var": pre["var"], "value": _pyvalue(vv["kind"], vv["value"])})
+            cmds.append({"cmd": "mutate", "module": modn, "var": pre["var"], "value": _pyvalue(vv["kind"], vv["value"]),
+                         "inplace": ip})
         elif pre["op"] == "failed_eval":
             cmds.append({"cmd": "eval", "entry": pname, "style": "eval", "options": {},
                          "fail": {"at": pre["at"], "cls": pre["cls"]}})
